@@ -49,11 +49,25 @@ const maxCompositeNesting = 20 // protect against malicious fonts
 // for composite, recursively calls itself; allPoints includes phantom points and will be at least of length 4,
 // or empty if the glyph is invalid (missing component, too deep nesting)
 func (f *Face) getPointsForGlyph(gid tables.GlyphID, currentDepth int, allPoints *[]contourPoint /* OUT */) {
+	edgeCount := 0
+	f.getPointsForGlyphRec(gid, currentDepth, allPoints, &edgeCount)
+}
+
+// maxCompositeEdges is the maximum number of glyphs visited when expanding one
+// composite glyph (HB_GLYF_MAX_EDGE_COUNT in harfbuzz): the nesting limit alone
+// does not bound the work, since every level may include the next one several times.
+const maxCompositeEdges = 1024
+
+func (f *Face) getPointsForGlyphRec(gid tables.GlyphID, currentDepth int, allPoints *[]contourPoint /* OUT */, edgeCount *int) {
 	// adapted from harfbuzz/src/hb-ot-glyf-table.hh
 
 	if currentDepth > maxCompositeNesting || int(gid) >= len(f.glyf) {
 		return
 	}
+	if *edgeCount > maxCompositeEdges {
+		return
+	}
+	*edgeCount++
 
 	g := f.glyf[gid]
 
@@ -89,7 +103,7 @@ func (f *Face) getPointsForGlyph(gid tables.GlyphID, currentDepth int, allPoints
 			// recurse on component
 			var compPoints []contourPoint
 
-			f.getPointsForGlyph(item.GlyphIndex, currentDepth+1, &compPoints)
+			f.getPointsForGlyphRec(item.GlyphIndex, currentDepth+1, &compPoints, edgeCount)
 
 			LC := len(compPoints)
 			if LC < phantomCount { // in case of max depth reached or invalid component
